@@ -170,6 +170,11 @@ func (c CurlyRouter) computeWebserviceScore(requestTokens []string, tokens []str
 				if matchesToken, _ := c.regularMatchesPathToken(other, colon, each); !matchesToken {
 					return false, score
 				}
+			} else if closing := strings.Index(other, "}"); closing != -1 && closing < len(other)-1 {
+				// parameter followed by a literal suffix, e.g. {name}.json ; the suffix must be present
+				if !strings.HasSuffix(each, other[closing+1:]) {
+					return false, score
+				}
 			}
 			score += 1
 		} else {
